@@ -65,7 +65,7 @@ def handle (toks : List String) : String :=
     | none => "bad-op"
     | some (m, p, ws) =>
       if !wellShaped m then "bad-op" else
-      s!"eg={showOpt (edgeCutGeneric? m.topo p)} es={showOut (edgeCutSprs? {} m p)} lg={showOpt (lambdaGeneric? m.topo p ws)} ls={showOut (lambdaSprs? {} m p ws)}"
+      s!"eg={showOpt (edgeCutGeneric? m.topo p)} es={showOut (edgeCutSprs? Cfg.current m p)} lg={showOpt (lambdaGeneric? m.topo p ws)} ls={showOut (lambdaSprs? Cfg.current m p ws)}"
   | "grid2" :: w :: h :: rest =>
     match (do
       let w ← parseNat? w
